@@ -13,8 +13,13 @@ subprocess.run(["git", "-C", "/repo", "worktree", "add", "-f", "--detach", wt, "
 try:
     r = subprocess.run(["git", "-C", wt, "apply", os.path.join(os.path.abspath(seed), "patch.diff")], capture_output=True, text=True)
     if r.returncode != 0:
-        print("PATCH DOES NOT APPLY:", r.stderr)
-        sys.exit(2)
+        # the lines around the change were touched by a later fix: commit: try a three-way merge on the recorded base blobs
+        r2 = subprocess.run(["git", "-C", wt, "apply", "--3way", os.path.join(os.path.abspath(seed), "patch.diff")], capture_output=True, text=True)
+        conflict = subprocess.run(["git", "-C", wt, "diff", "--name-only", "--diff-filter=U"], capture_output=True, text=True).stdout.strip()
+        if r2.returncode != 0 or conflict:
+            print("PATCH DOES NOT APPLY:", r.stderr[:300])
+            sys.exit(2)
+        print("NOTE: patch applied by three-way merge (context changed by a later fix)")
     env = dict(os.environ, VERIF_REPO=wt)
     r = subprocess.run(["./check", pid, "--tier", tier], cwd="/verif", env=env, capture_output=True, text=True)
     for line in r.stdout.splitlines():
